@@ -1675,8 +1675,9 @@ impl ArrayData {
         // to calling `validate_full()` but double check to be sure
         assert!(buffer.len() / mem::size_of::<T>() >= required_len);
 
-        // Justification: buffer size was validated above
-        let indexes: &[T] = &buffer.typed_data::<T>()[self.offset..required_len];
+        // Justification: buffer size was validated above. Only the required prefix is
+        // interpreted: trailing bytes need not form a whole element (`typed_data` would panic)
+        let indexes: &[T] = self.typed_buffer::<T>(0, self.len)?;
 
         indexes.iter().enumerate().try_for_each(|(i, &dict_index)| {
             // Do not check the value is null (value can be arbitrary)
